@@ -96,6 +96,7 @@ func maxi(a, b int) int {
 //	A nprod (npk (offset nchan)*)* start                         OUT <tables> <files>
 //	S kind nchan start                                           OUT <tables> <files>      kind 0 triangle, 1 simpulse
 //	R nchan start                                                OUT <tables> <files>
+//	H … histories on one source object, see c19History
 func genC19(r *Rng, tier string, o *Out) {
 	dastard.VerifStartClientDrain()
 	n := 1500
@@ -104,11 +105,13 @@ func genC19(r *Rng, tier string, o *Out) {
 	}
 	for i := 0; i < n; i++ {
 		switch c := r.Intn(100); {
-		case c < 68:
+		case c < 25:
+			c19History(r, o)
+		case c < 75:
 			c19Lancero(r, o)
-		case c < 88:
+		case c < 90:
 			c19Abaco(r, o)
-		case c < 96:
+		case c < 97:
 			c19Generic(r, o, false)
 		default:
 			c19Roach(r, o, false)
@@ -122,7 +125,9 @@ func genC19(r *Rng, tier string, o *Out) {
 	}
 }
 
-func c19Lancero(r *Rng, o *Out) {
+// c19LanceroCfg draws one Lancero configuration: active cards (distinct device numbers, any order),
+// geometry, first row, column and card separations around the smallest values the geometry needs.
+func c19LanceroCfg(r *Rng) (devs []dastard.VerifC19Dev, firstRow, sepCards, sepCols, total int) {
 	ncards := r.Pick(1, 1, 1, 2, 2, 2, 3, 4, 4, 6, 8)
 	if r.Chance(4) {
 		ncards = r.Range(9, 12)
@@ -152,8 +157,8 @@ func c19Lancero(r *Rng, o *Out) {
 		nrows0 = r.Pick(64, 100, 255, 256)
 		ncols0 = r.Range(1, 2)
 	}
-	devs := make([]dastard.VerifC19Dev, ncards)
-	maxrows, total := 0, 0
+	devs = make([]dastard.VerifC19Dev, ncards)
+	maxrows := 0
 	for k := range devs {
 		nc, nr := ncols0, nrows0
 		if !same {
@@ -164,8 +169,13 @@ func c19Lancero(r *Rng, o *Out) {
 		maxrows = maxi(maxrows, nr)
 		total += 2 * nc * nr
 	}
-	firstRow := r.Pick(0, 1, 1, 1, 1, 2, 10, 100, 1000000, -1, -5, r.Range(-50, 50))
-	sepCols := 0
+	firstRow = r.Pick(0, 1, 1, 1, 1, 2, 10, 100, 1000000, -1, -5, r.Range(-50, 50))
+	sepCols = c19SepCols(r, maxrows)
+	sepCards = c19SepCards(r, devs, sepCols)
+	return
+}
+
+func c19SepCols(r *Rng, maxrows int) (sepCols int) {
 	switch r.Intn(12) {
 	case 0, 1, 2, 3:
 		sepCols = 0
@@ -184,6 +194,10 @@ func c19Lancero(r *Rng, o *Out) {
 	default:
 		sepCols = r.Range(0, 2*maxrows+2)
 	}
+	return
+}
+
+func c19SepCards(r *Rng, devs []dastard.VerifC19Dev, sepCols int) (sepCards int) {
 	need := 0 // the smallest card separation the geometry needs
 	for _, d := range devs {
 		cs := d.Nrows
@@ -192,7 +206,6 @@ func c19Lancero(r *Rng, o *Out) {
 		}
 		need = maxi(need, cs*d.Ncols)
 	}
-	sepCards := 0
 	switch r.Intn(12) {
 	case 0, 1, 2, 3:
 		sepCards = 0
@@ -211,12 +224,21 @@ func c19Lancero(r *Rng, o *Out) {
 	default:
 		sepCards = r.Range(0, 2*need+2)
 	}
+	return
+}
+
+func c19LanceroStepText(sb *strings.Builder, devs []dastard.VerifC19Dev, firstRow, sepCards, sepCols int) {
+	fmt.Fprintf(sb, "L %d %d %d %d", firstRow, sepCards, sepCols, len(devs))
+	for _, d := range devs {
+		fmt.Fprintf(sb, " %d %d %d", d.Devnum, d.Ncols, d.Nrows)
+	}
+}
+
+func c19Lancero(r *Rng, o *Out) {
+	devs, firstRow, sepCards, sepCols, total := c19LanceroCfg(r)
 	start := total > 0 && total <= 96 && r.Chance(30)
 	var sb strings.Builder
-	fmt.Fprintf(&sb, "L %d %d %d %d", firstRow, sepCards, sepCols, len(devs))
-	for _, d := range devs {
-		fmt.Fprintf(&sb, " %d %d %d", d.Devnum, d.Ncols, d.Nrows)
-	}
+	c19LanceroStepText(&sb, devs, firstRow, sepCards, sepCols)
 	fmt.Fprintf(&sb, " %d", b2i(start))
 	out := c19Guard(func() string {
 		ts, ds := dastard.VerifC19Lancero(devs, firstRow, sepCards, sepCols, 2)
@@ -229,7 +251,8 @@ func c19Lancero(r *Rng, o *Out) {
 	o.Case("%s OUT %s", sb.String(), out)
 }
 
-func c19Abaco(r *Rng, o *Out) {
+// c19AbacoLayout draws the (offset, nchan) pairs the sampled packets of each producer announce.
+func c19AbacoLayout(r *Rng) (prods [][][2]int, total int) {
 	nprod := r.Pick(1, 1, 2, 3)
 	ngroups := r.Pick(1, 1, 2, 2, 3, 4, 6, 8, r.Range(1, 12))
 	// a layout of mostly adjacent, sometimes separated, sometimes colliding groups
@@ -275,8 +298,7 @@ func c19Abaco(r *Rng, o *Out) {
 		j := r.Intn(k + 1)
 		pk[k], pk[j] = pk[j], pk[k]
 	}
-	prods := make([][][2]int, nprod)
-	total := 0
+	prods = make([][][2]int, nprod)
 	for _, g := range gs {
 		total += g.n
 	}
@@ -284,15 +306,24 @@ func c19Abaco(r *Rng, o *Out) {
 		p := r.Intn(nprod)
 		prods[p] = append(prods[p], [2]int{g.off, g.n})
 	}
-	start := total <= 96 && r.Chance(30)
-	var sb strings.Builder
-	fmt.Fprintf(&sb, "A %d", nprod)
+	return
+}
+
+func c19AbacoStepText(sb *strings.Builder, prods [][][2]int) {
+	fmt.Fprintf(sb, "A %d", len(prods))
 	for _, p := range prods {
-		fmt.Fprintf(&sb, " %d", len(p))
+		fmt.Fprintf(sb, " %d", len(p))
 		for _, g := range p {
-			fmt.Fprintf(&sb, " %d %d", g[0], g[1])
+			fmt.Fprintf(sb, " %d %d", g[0], g[1])
 		}
 	}
+}
+
+func c19Abaco(r *Rng, o *Out) {
+	prods, total := c19AbacoLayout(r)
+	start := total <= 96 && r.Chance(30)
+	var sb strings.Builder
+	c19AbacoStepText(&sb, prods)
 	fmt.Fprintf(&sb, " %d", b2i(start))
 	out := c19Guard(func() string {
 		t, ds := dastard.VerifC19Abaco(prods)
@@ -347,4 +378,164 @@ func c19Roach(r *Rng, o *Out, huge bool) {
 		return s + " F 0"
 	})
 	o.Case("R %d %d OUT %s", nchan, b2i(start), out)
+}
+
+// c19History re-prepares ONE source object several times with different configurations (the RPC server
+// keeps one object per source kind for its whole life; PrepareChannels runs again after every
+// reconfiguration and after a failed or self-terminated start).
+//
+//	H nsteps (L cfg | Y | A layout | S kind nchan | R nchan)* start  OUT <tables after step 1> … <tables after step n> <files>
+func c19History(r *Rng, o *Out) {
+	nsteps := r.Pick(2, 2, 3, 3, 4, 6)
+	var sb strings.Builder
+	fmt.Fprintf(&sb, "H %d", nsteps)
+	switch c := r.Intn(100); {
+	case c < 70: // Lancero
+		steps := make([]dastard.VerifC19LanceroStep, 0, nsteps)
+		devs, firstRow, sepCards, sepCols, total := c19LanceroCfg(r)
+		for len(devs) == 0 {
+			devs, firstRow, sepCards, sepCols, total = c19LanceroCfg(r)
+		}
+		if r.Chance(70) { // start from an acceptable numbering most of the time
+			maxrows := 0
+			for _, d := range devs {
+				maxrows = maxi(maxrows, d.Nrows)
+			}
+			sepCols = r.Pick(0, maxrows, maxrows+r.Range(1, 100), 100)
+			if sepCols < maxrows {
+				sepCols = 0
+			}
+			sepCards = 0
+			if r.Bool() {
+				sepCards = 100000
+			}
+		}
+		for k := 0; k < nsteps; k++ {
+			if k > 0 {
+				switch r.Intn(10) {
+				case 0: // PrepareChannels again on the state left behind
+					steps = append(steps, dastard.VerifC19LanceroStep{Retry: true})
+					sb.WriteString(" Y")
+					continue
+				case 1: // the same configuration again (a new Start after a failed one)
+				case 2, 3: // other column separation (e.g. 100 -> 10)
+					maxrows := 0
+					for _, d := range devs {
+						maxrows = maxi(maxrows, d.Nrows)
+					}
+					sepCols = r.Pick(0, maxrows, maxrows+1, maxrows+r.Range(1, 50), 10, 100, maxrows-1)
+				case 4: // other card separation
+					sepCards = c19SepCards(r, devs, sepCols)
+				case 5: // other first row
+					firstRow = r.Pick(0, 1, 2, 10, 100, -3, firstRow+r.Range(1, 5))
+				case 6: // other active cards: a subset, reversed, or one more card
+					nd := append([]dastard.VerifC19Dev{}, devs...)
+					switch r.Intn(3) {
+					case 0:
+						if len(nd) > 1 {
+							nd = nd[:r.Range(1, len(nd)-1)]
+						}
+					case 1:
+						for i, j := 0, len(nd)-1; i < j; i, j = i+1, j-1 {
+							nd[i], nd[j] = nd[j], nd[i]
+						}
+					default:
+						mx, nc, nr := 0, 2, 4
+						for _, d := range nd {
+							mx = maxi(mx, d.Devnum)
+							nc, nr = d.Ncols, d.Nrows
+						}
+						nd = append(nd, dastard.VerifC19Dev{Devnum: mx + 1, Ncols: nc, Nrows: nr})
+					}
+					devs = nd
+				case 7: // other geometry of the same cards (another crate programmed with another sequence length)
+					nr := r.Pick(1, 2, 4, 8, 16, 30)
+					nd := append([]dastard.VerifC19Dev{}, devs...)
+					for i := range nd {
+						nd[i].Nrows = nr
+					}
+					devs = nd
+				default: // a wholly different configuration
+					devs, firstRow, sepCards, sepCols, total = c19LanceroCfg(r)
+				}
+			}
+			steps = append(steps, dastard.VerifC19LanceroStep{Devs: devs, FirstRow: firstRow, SepCards: sepCards, SepCols: sepCols})
+			sb.WriteString(" ")
+			c19LanceroStepText(&sb, devs, firstRow, sepCards, sepCols)
+		}
+		total = 0
+		for _, d := range devs {
+			total += 2 * d.Ncols * d.Nrows
+		}
+		start := total > 0 && total <= 96 && r.Chance(30)
+		fmt.Fprintf(&sb, " %d", b2i(start))
+		out := c19Guard(func() string {
+			ts, ds := dastard.VerifC19LanceroSeq(steps)
+			return c19HistOut(ts, ds, start)
+		})
+		o.Case("%s OUT %s", sb.String(), out)
+	case c < 88: // Abaco
+		hist := make([][][][2]int, nsteps)
+		total := 0
+		for k := range hist {
+			if k > 0 && r.Chance(20) {
+				hist[k] = hist[k-1]
+			} else {
+				hist[k], total = c19AbacoLayout(r)
+			}
+			sb.WriteString(" ")
+			c19AbacoStepText(&sb, hist[k])
+		}
+		start := total > 0 && total <= 96 && r.Chance(30)
+		fmt.Fprintf(&sb, " %d", b2i(start))
+		out := c19Guard(func() string {
+			ts, ds := dastard.VerifC19AbacoSeq(hist)
+			return c19HistOut(ts, ds, start)
+		})
+		o.Case("%s OUT %s", sb.String(), out)
+	case c < 95: // simulated
+		kind := r.Intn(2)
+		nchans := make([]int, nsteps)
+		for k := range nchans {
+			nchans[k] = r.Pick(1, 2, 3, 4, 8, 16, 33, 100, 0, r.Range(1, 300))
+			fmt.Fprintf(&sb, " S %d %d", kind, nchans[k])
+		}
+		last := nchans[nsteps-1]
+		start := last > 0 && last <= 96 && r.Chance(30)
+		fmt.Fprintf(&sb, " %d", b2i(start))
+		out := c19Guard(func() string {
+			ts, ds := dastard.VerifC19GenericSeq(kind, nchans)
+			return c19HistOut(ts, ds, start)
+		})
+		o.Case("%s OUT %s", sb.String(), out)
+	default: // ROACH
+		nchans := make([]int, nsteps)
+		for k := range nchans {
+			nchans[k] = r.Pick(0, 1, 2, 8, 16, 100, r.Range(1, 300))
+			fmt.Fprintf(&sb, " R %d", nchans[k])
+		}
+		last := nchans[nsteps-1]
+		start := last > 0 && last <= 96 && r.Chance(30)
+		fmt.Fprintf(&sb, " %d", b2i(start))
+		out := c19Guard(func() string {
+			ts, ds := dastard.VerifC19RoachSeq(nchans)
+			return c19HistOut(ts, ds, start)
+		})
+		o.Case("%s OUT %s", sb.String(), out)
+	}
+}
+
+func c19HistOut(ts []dastard.VerifC19Tables, ds *dastard.AnySource, start bool) string {
+	var sb strings.Builder
+	for k, t := range ts {
+		if k > 0 {
+			sb.WriteString(" ")
+		}
+		sb.WriteString(c19Tables(t))
+	}
+	last := ts[len(ts)-1]
+	if start && !last.Rejected && len(last.Streams) > 0 {
+		return sb.String() + " " + c19Start(ds)
+	}
+	return sb.String() + " F 0"
 }
